@@ -13,6 +13,7 @@ structure DumpSt where
   hdrD : Hdr := {}                 -- header of the decoded dataset
   dumps : List (List Nat) := []    -- every text dumped since `reset`, oldest first
   loaded : Array D13Loaded := #[]
+  lastMsg : Option (List Nat) := none   -- the message the last `ds.msg` wrote (`ds.decodemsg @`)
 
 def d13FmtHdr (h : Hdr) : String :=
   s!"mt={h.masterTable} centre={h.centre} sub={h.subCentre} upd={h.updSeq} type={h.msgType} isub={h.interSub} " ++
@@ -73,6 +74,33 @@ def d13MsgStr (o : Option (List Nat)) : String :=
   | some bs => toHex bs
   | none => "werr"
 
+/-- `bufr_decode_message` hands Section 1, the header string and the Section 3 flags of the message to the dataset
+(`bufr_copy_sect1`, `data_flag |= s3.flag`, SUSPICIOUS for a master table other than 0) -/
+def d13HdrOfMsg (m : Frame.Msg) (invalid : Bool) : Hdr :=
+  { masterTable := m.s1.masterTable, centre := m.s1.centre, subCentre := m.s1.subCentre, updSeq := m.s1.updSeq,
+    msgType := m.s1.msgType, interSub := m.s1.interSub, localSub := m.s1.localSub, masterVer := m.s1.masterVer,
+    localVer := m.s1.localVer, year := m.s1.year, month := m.s1.month, day := m.s1.day, hour := m.s1.hour,
+    minute := m.s1.minute, second := m.s1.second,
+    dataFlag := ((m.s3Flag ||| (if invalid then 256 else 0) ||| (if m.s1.masterTable ≠ 0 then 512 else 0) : Nat) : Int),
+    headerString := m.header, s1data := m.s1.data }
+
+/-- what the codec ops do to the headers: `ds.decodemsg` fills the decoded dataset's header from the message it read,
+`dd.tocur` makes the decoded dataset (header included) the current one -/
+def d13AfterCodec (st : DumpSt) (toks : List String) (out : String) : DumpSt :=
+  match toks with
+  | ["ds.decodemsg", h] =>
+    match out.splitOn " " with
+    | ["read", _, "ok", inv, _] =>
+      (match parseHex h with
+       | some bytes =>
+         (match Frame.readMessage bytes with
+          | .ok (m, _) => { st with hdrD := d13HdrOfMsg m (inv = "1") }
+          | .err => st)
+       | none => st)
+    | _ => st
+  | ["dd.tocur"] => if out.startsWith "ok" then { st with hdrS := st.hdrD } else st
+  | _ => st
+
 def stepDump (tm : TmplSt) (cs : CodecSt) (st : DumpSt) (toks : List String) :
     Option (TmplSt × CodecSt × DumpSt × String) :=
   let T := tm.cur.toTables
@@ -124,11 +152,11 @@ def stepDump (tm : TmplSt) (cs : CodecSt) (st : DumpSt) (toks : List String) :
         if w = "s" then
           let tm' := { tm with subsets := (ss.map fun ns => ({ nodes := ns } : Subset)).toArray, invalid := tm.invalid || bad }
           let st' := if bad then { st with hdrS := { st.hdrS with dataFlag := orI32 st.hdrS.dataFlag 256 } } else st
-          some (tm', cs, st', d13MsgStr bytes)
+          some (tm', cs, { st' with lastMsg := bytes }, d13MsgStr bytes)
         else
           let cs' := { cs with decoded := ss.toArray, decInvalid := cs.decInvalid || bad }
           let st' := if bad then { st with hdrD := { st.hdrD with dataFlag := orI32 st.hdrD.dataFlag 256 } } else st
-          some (tm, cs', st', d13MsgStr bytes)
+          some (tm, cs', { st' with lastMsg := bytes }, d13MsgStr bytes)
   | ["ds.loadtext", w, c, h] =>
     let tmplOf : Option Template :=
       match d13PickDs tm cs st w with
